@@ -162,6 +162,11 @@ def _world(name):
 
 
 CFG_EXTRA = {
+    # budget-driven yields (quantum / wall budgets out of reach so no time-driven yield can occur): the yield paths of
+    # turn.jsonl / scheduler.jsonl are part of the canonical output too
+    "sched_yield_t3": {"scheduler": {"enabled": True, "quantum_ms": 10 ** 9, "budgets": {"wall_ms": 10 ** 9, "t3_ops": 1}}},
+    "sched_yield_t2": {"scheduler": {"enabled": True, "quantum_ms": 10 ** 9, "budgets": {"wall_ms": 10 ** 9, "t2_k": 2, "t3_ops": 8}}},
+    "sched_yield_t1": {"scheduler": {"enabled": True, "quantum_ms": 10 ** 9, "budgets": {"wall_ms": 10 ** 9, "t1_iters": 1, "t3_ops": 8}}},
     "exact_only": {"t2": {"tiers": ["exact_semantic"], "exact_recent_days": 30}},
     "small_lru": {"t1": {"cache": {"max_entries": 1}}, "t2": {"cache": {"max_entries": 1}}},
 }
